@@ -20,7 +20,7 @@ MANIFEST = dict(
     category='model_checking', design_ref='DESIGN.md §3 C05, §2.5',
     engine='E1-history',
     technique='explicit-state model checking of add/remove/add-ILI histories on the real SQLite database: exact-key depth-bounded search plus BFS closure to a fixpoint under a rowid-quotient key, reference model stepped in lock-step',
-    text='All histories over 18 events (add of base A:1, second version A:2 with identical ids, extension X:1, extension-of-extension Y:1, dependent B:1, unrelated C:1, a two-lexicon bundle, a file holding the base and its extension, an ILI file; remove of a:1, a:2, a:*, x:1, y:1, b:1, c:1, *, *:1) are explored on the real database by BFS: depth-bounded with the exact table dump as key, and to a fixpoint under an abstraction key (quick: installed lexicons in rowid order + ILI-index flag; thorough: additionally the value sets of the shared lookup tables; plus a capped run under the rowid-quotient key). Every transition is one real wn.add/wn.remove call compared with the reference model (installed set, extension closure); in every reached state the canonical table dump of all owned tables and the per-lexicon public-API transcripts must equal those of a fresh database built from just the installed lexicons, PRAGMA foreign_key_check / integrity_check and an ownership audit must be clean, and dependency links must match what is installed. The universe is explored twice: without annotations of external lemmas/forms (zero tolerance) and with them (only the recorded residue finding is accepted).',
+    text='All histories over 18 events (add of base A:1, second version A:2 with identical ids, extension X:1, extension-of-extension Y:1, dependent B:1, unrelated C:1, a two-lexicon bundle, a file holding the base and its extension, an ILI file; remove of a:1, a:2, a:*, x:1, y:1, b:1, c:1, *, *:1) are explored on the real database by BFS: depth-bounded with the exact table dump as key, and to a fixpoint under an abstraction key (quick: installed lexicons in rowid order + ILI-index flag; thorough: additionally the value sets of the shared lookup tables; plus a capped run under the rowid-quotient key). Every transition is one real wn.add/wn.remove call compared with the reference model (installed set, extension closure); in every reached state the canonical table dump of all owned tables and the per-lexicon public-API transcripts must equal those of a fresh database built from just the installed lexicons, PRAGMA foreign_key_check / integrity_check and an ownership audit must be clean, and dependency links must match what is installed. The universe is explored twice: without annotations of external lemmas/forms (zero tolerance) and with them (only the recorded residue finding is accepted). A third, smaller universe UT (13 events: base in two versions, two versions x:1 / x:2 of one extension and a fork z:1 of it, a file holding two of them; all three give the form they add to the same base entry the same id, with their own tags and pronunciations) is closed the same way with zero tolerance; there each extension is observed together with its base.',
     note='Key soundness argument in DESIGN §2.5 / §9.2 (all library SQL is invariant under order-preserving rowid renaming on clean states; cleanliness is itself an invariant checked in every state). The shared ILI / relation-type / lexfile inventories are excluded from the comparison as the property says.',
 )
 
@@ -32,6 +32,19 @@ ORDER = ['a:1', 'a:2', 'x:1', 'y:1', 'b:1', 'c:1']      # canonical fresh-build 
 EXT = {'x:1': 'a:1', 'y:1': 'x:1'}
 NAME = {v: k for k, v in universe.SPEC.items()}
 
+# the universes: U- / U+ (the main one without / with annotations of external forms) and UT ('twin': two versions
+# of one extension and a fork of it, all adding a form with the same id to the same base entry)
+UNIS = {
+    'main': dict(adds=ADDS, removes=REMOVES, order=ORDER, ext=EXT, name=NAME, forms=universe.FORMS),
+    'twin': dict(adds=['A1', 'A2', 'T1', 'T2', 'Z1', 'TZ'],
+                 removes=['a:1', 'a:*', 'x:1', 'x:2', 'x:*', 'z:1', '*'],
+                 order=['a:1', 'a:2', 'x:1', 'x:2', 'z:1'],
+                 ext={'x:1': 'a:1', 'x:2': 'a:1', 'z:1': 'a:1'},
+                 name={v: k for k, v in universe.SPEC_TWIN.items()}, forms=universe.FORMS_TWIN),
+}
+ULABEL = {False: 'U- (no annotations)', True: 'U+ (extension annotates external lemma/form)',
+          'twin': 'UT (two versions of one extension and a fork, same ids for the forms they add)'}
+
 
 def match(pattern, installed):
     if pattern == '*':
@@ -40,12 +53,12 @@ def match(pattern, installed):
     return [s for s in installed if (i == '*' or s.split(':')[0] == i) and (v == '*' or s.split(':')[1] == v)]
 
 
-def extensions_closure(spec, installed):
+def extensions_closure(spec, installed, ext=EXT):
     out, frontier = [], [spec]
     while frontier:
         cur = frontier.pop()
         for s in installed:
-            if EXT.get(s) == cur and s not in out:
+            if ext.get(s) == cur and s not in out:
                 out.append(s)
                 frontier.append(s)
     return out
@@ -53,9 +66,11 @@ def extensions_closure(spec, installed):
 
 class Sys05(e1.System):
     def __init__(self, annot, transcripts=True):
-        self.annot = annot
+        self.annot = annot is True
+        self.uni_id = annot
+        self.U = UNIS['twin' if annot == 'twin' else 'main']
         self.transcripts = transcripts
-        self.res = universe.resources(annot)
+        self.res = universe.resources_twin() if annot == 'twin' else universe.resources(annot)
         self.xml = {k: xmlw.serialize(r) for k, r in self.res.items()}
         self.reltypes = docgen.reltypes_of(*self.res.values())
         self._fresh = {}
@@ -67,7 +82,7 @@ class Sys05(e1.System):
         return [m['inst'], m['ili']]
 
     def events(self, m):
-        return [['add', a] for a in ADDS] + [['remove', r] for r in REMOVES]
+        return [['add', a] for a in self.U['adds']] + [['remove', r] for r in self.U['removes']]
 
     def apply(self, ev, workdir):
         if ev[0] == 'add':
@@ -89,14 +104,14 @@ class Sys05(e1.System):
                     s = f"{lex['id']}:{lex['version']}"
                     if s in pre:
                         continue
-                    if s in EXT and EXT[s] not in inst:      # installed before, or earlier in this file
+                    if s in self.U['ext'] and self.U['ext'][s] not in inst:      # installed before, or earlier in this file
                         continue
                     inst.append(s)
         else:
             gone = set()
             for s in match(ev[1], inst):
                 gone.add(s)
-                gone.update(extensions_closure(s, inst))
+                gone.update(extensions_closure(s, inst, self.U['ext']))
             inst = [s for s in inst if s not in gone]
         return {'inst': inst, 'ili': ili}
 
@@ -131,9 +146,10 @@ class Sys05(e1.System):
         w = env.new_dir('fresh')
         if ili:
             env.add(env.write_file('cili.tsv', universe.ili_tsv(), w))
-        for s in ORDER:
+        for s in self.U['order']:
             if s in inst:
-                env.add(env.write_file(f'{NAME[s]}.xml', self.xml[NAME[s]], w))
+                n = self.U['name'][s]
+                env.add(env.write_file(f'{n}.xml', self.xml[n], w))
         out = self.observe_state(sorted(inst))
         env.drop_db(d)
         wn.config.data_directory = cur
@@ -151,10 +167,19 @@ class Sys05(e1.System):
         with warnings.catch_warnings():
             warnings.simplefilter('ignore')
             for s in inst:
-                T[s] = observe.api_transcript(wn.Wordnet(lexicon=s, expand=''), self.reltypes, forms=universe.FORMS)
-            if inst:
+                T[s] = observe.api_transcript(wn.Wordnet(lexicon=s, expand=''), self.reltypes, forms=self.U['forms'])
+            if inst and self.uni_id != 'twin':
                 T['*'] = observe.api_transcript(wn.Wordnet(lexicon=' '.join(inst), expand=''), self.reltypes,
-                                                forms=universe.FORMS)
+                                                forms=self.U['forms'])
+            if self.uni_id == 'twin':
+                # sibling extensions put senses and forms on the same base entities: the order among *their*
+                # contributions follows the order of installation (cross-lexicon ordering, which the statement
+                # sets aside), so each extension is observed together with its base instead of all at once
+                for s in inst:
+                    b = self.U['ext'].get(s)
+                    if b in inst:
+                        T[f'{b} {s}'] = observe.api_transcript(wn.Wordnet(lexicon=f'{b} {s}', expand=''),
+                                                               self.reltypes, forms=self.U['forms'])
         env.close_pool()
         return {'C': C, 'T': T}
 
@@ -247,17 +272,18 @@ def run(tier, seed, jobs=None):
     plans = []
     if tier == 'quick':
         # U+ in the quick tier compares the table dumps only (the API transcripts are a function of them)
-        plans = [(False, 'exact', 3, None, True), (False, 'coarse', None, None, True), (True, 'coarse', None, None, False)]
+        plans = [(False, 'exact', 3, None, True), (False, 'coarse', None, None, True), (True, 'coarse', None, None, False),
+                 ('twin', 'coarse', None, None, True)]
     else:
         plans = [(False, 'exact', 4, None, True), (False, 'medium', None, 400000, True),
                  (True, 'exact', 3, None, True), (True, 'medium', None, 400000, False),
-                 (False, 'quotient', None, 60000, False)]
+                 (False, 'quotient', None, 60000, False),
+                 ('twin', 'exact', 4, None, True), ('twin', 'medium', None, 400000, True)]
     for annot, mode, depth, cap, tr in plans:
         st, V, vc = e1.explore(_sys(annot, tr), mode, max_depth=depth, cap=cap, jobs=jobs)
         st.pop('sdata', None)
         st.pop('edges', None)
-        st.update({'universe': 'U+ (extension annotates external lemma/form)' if annot else 'U- (no annotations)',
-                   'key': mode, 'depth_bound': depth})
+        st.update({'universe': ULABEL[annot], 'key': mode, 'depth_bound': depth})
         runs.append(st)
         allV += V
         for k, n in vc.items():
@@ -271,7 +297,7 @@ def run(tier, seed, jobs=None):
         'runs': runs,
         'samples': [[['add', 'A1'], ['add', 'X1'], ['remove', 'a:*']],
                     [['add', 'BC'], ['add', 'I'], ['add', 'A2'], ['remove', '*:1']]],
-        'events': len(ADDS) + len(REMOVES),
+        'events': len(ADDS) + len(REMOVES), 'events_twin_universe': len(UNIS['twin']['adds']) + len(UNIS['twin']['removes']),
         'exhaustive': all(r['fixpoint'] or r['depth_bound'] for r in runs),
         'explanation': 'every transition is a real wn.add/wn.remove call on a restored snapshot, compared with the reference model and with a fresh build',
         '_vcount': vcount,
@@ -286,8 +312,10 @@ def replay(path):
     data = json.load(open(path))
     hist = data['case']['history']
     found = False
-    for annot in (False, True):
+    for annot in (False, True, 'twin'):
         s = _sys(annot)
+        if any(ev not in s.events(None) for ev in hist):
+            continue
         env.fresh_db()
         w = env.new_dir('rp')
         m = s.initial_model()
@@ -302,7 +330,7 @@ def replay(path):
             m2 = s.mstep(m, ev)
             V = s.check(m, ev, m2, pre, post, hist[:i + 1], raised)
             for k, msg in V:
-                print(f'REPRODUCED property={PROP} key={k} universe={"U+" if annot else "U-"} :: {msg[:300]}')
+                print(f'REPRODUCED property={PROP} key={k} universe={ULABEL[annot][:2]} :: {msg[:300]}')
                 if k == data['key']:
                     found = True
             m = m2
